@@ -71,6 +71,7 @@ def plan(tier, seed):
             jobs.append({"k": "probe", "mode": name, "flavour": fl})
             jobs.append({"k": "battery", "mode": name, "flavour": fl})
             jobs.append({"k": "probe", "mode": name, "flavour": fl, "blocks": 64, "workers": "2"})
+            jobs.append({"k": "probe", "mode": name, "flavour": fl, "shebang": True})
     return jobs
 
 
@@ -128,6 +129,15 @@ def run_job(job, ctx):
 
 def _probe(ctx, job, value, cls, fl):
     script = lua_script("probe.lua")
+    if job.get("shebang"):
+        # the same probe behind a `#!` first line: the script is either refused (a syntax error is a hard error) or it runs in
+        # exactly the environment every other script gets
+        sb = os.path.join(run.scratch_root(), "probe_shebang.lua")
+        if not os.path.exists(sb):
+            with open(sb + ".tmp%d" % os.getpid(), "w") as f:
+                f.write("#!/usr/bin/env lua\n" + open(script).read())
+            os.replace(sb + ".tmp%d" % os.getpid(), sb)
+        script = sb
     nblocks = job.get("blocks", 1)
     text = "".join('# <block name="p%d" check-lua="%s">\nx = %d\n# </block>\n' % (i, script, i) for i in range(nblocks))
     root = run.make_repo({"f.py": text})
@@ -168,6 +178,9 @@ def _probe(ctx, job, value, cls, fl):
         return out
     msg = _lua_message(res)
     wit = {"mode": job["mode"], "env_value": value, "flavour": fl}
+    if job.get("shebang") and msg is None and res.rc != 0 and not bad_outcome(res) and res.diagnostics() is None:
+        return [Case(HELD, key=h(job), nontrivial=True, evals=1, sets={"mode": [job["mode"]], "shebang_script": ["refused"]},
+                     counters={"shebang_scripts_refused": 1})]
     if msg is None or not msg.startswith("PROBE\n"):
         return [Case(VIOLATED if bad_outcome(res) else INCONCLUSIVE, key=h(job), nontrivial=True,
                      sig="C17/probe-run-%s" % res.cls, summary="probe did not report (%s): %s %s" % (res.cls, res.err_text()[:300], (msg or "")[:200]),
@@ -229,7 +242,7 @@ def _cmod_dir():
     os.makedirs(d, exist_ok=True)
     src = os.path.join(d, "vmod.c")
     with open(src, "w") as f:
-        f.write("int luaopen_vmod(void *L) { (void)L; return 0; }\n")
+        f.write("int luaopen_vmod(void *L) { (void)L; return 0; }\nint luaopen_vmod_sub(void *L) { (void)L; return 0; }\n")
     p = subprocess.run(["gcc", "-shared", "-fPIC", "-o", os.path.join(d, "vmod.so"), src], capture_output=True)
     with open(os.path.join(d, "lmod.lua"), "w") as f:
         f.write('return "LMOD-LOADED"\n')
@@ -249,12 +262,12 @@ BOOL_FALSE_DEFAULT = {"loadtime_package", "load_text_io", "load_text_os", "load_
                       "rawget_debug", "rawget_package", "stringmt_foreign"}
 MUST_BLOCK_DEFAULT = {"io_open_read", "io_open_write", "io_lines", "io_popen", "os_execute", "os_getenv", "os_remove", "os_rename",
                       "os_tmpname", "os_time", "require_io", "require_os", "package_loaded_io", "package_loadlib",
-                      "package_loadlib_sym", "require_cmod", "require_luamod", "dofile", "loadfile", "debug_getregistry",
+                      "package_loadlib_sym", "require_cmod", "require_cmod_dotted", "require_luamod", "dofile", "loadfile", "debug_getregistry",
                       "debug_getinfo", "debug_via_registry_io", "coroutine_io", "coroutine_dofile", "pcall_require", "searchers",
                       "loadtime_dofile", "loadtime_loadfile", "loadtime_io", "loadtime_os", "loadtime_require", "loadtime_debug",
                       "load_ret_dofile", "load_ret_loadfile", "load_ret_G_dofile", "load_ret_require", "load_ret_io_open", "load_ret_os_getenv",
                       "load_ret_debug"}
-NATIVE = {"package_loadlib", "package_loadlib_sym", "require_cmod"}
+NATIVE = {"package_loadlib", "package_loadlib_sym", "require_cmod", "require_cmod_dotted"}
 DEBUG = {"debug_getregistry", "debug_getinfo", "debug_via_registry_io", "pcall_require", "loadtime_debug", "load_ret_debug"}
 
 
